@@ -6,7 +6,7 @@
 //! progress) to a callback installed by the verification harness.
 #![allow(missing_docs)]
 
-use core::sync::atomic::{AtomicUsize, Ordering};
+use core::sync::atomic::{AtomicPtr, Ordering};
 
 /// The counters of a box are read or written through a handle or a link.
 pub const ACCESS: u8 = 0;
@@ -26,19 +26,19 @@ pub const TRACE_VISIT: u8 = 6;
 /// `drop_cycle` starts; the argument is the number of members, not an address.
 pub const GROUP: u8 = 7;
 
-static HOOK: AtomicUsize = AtomicUsize::new(0);
+static HOOK: AtomicPtr<()> = AtomicPtr::new(core::ptr::null_mut());
 
 /// Install the callback; it receives the event kind and the `RcBox` address.
 pub fn set_hook(hook: fn(u8, usize)) {
-    HOOK.store(hook as usize, Ordering::Relaxed);
+    HOOK.store(hook as *mut (), Ordering::Relaxed);
 }
 
 #[inline]
 pub(crate) fn emit(event: u8, rcbox: usize) {
     let hook = HOOK.load(Ordering::Relaxed);
-    if hook != 0 {
+    if !hook.is_null() {
         // SAFETY: the only writer stores a `fn(u8, usize)`.
-        let hook: fn(u8, usize) = unsafe { core::mem::transmute(hook) };
+        let hook: fn(u8, usize) = unsafe { core::mem::transmute::<*mut (), fn(u8, usize)>(hook) };
         hook(event, rcbox);
     }
 }
